@@ -151,6 +151,20 @@ func TestVerifC22(t *testing.T) {
 			r.ViolationMin("leader-panic", len(view), fmt.Sprintf("key=%d hash=%d window=%d view=%s", c.Key, c.Hash, c.Window, view),
 				fmt.Sprintf("getLeader panicked on view %s: %v\n%s", view, p, stack), rp)
 		}
+		// A member whose executor already ran an earlier election (another seed) must
+		// elect the same leader as a member with a fresh executor (e.g. one restarted in
+		// the meantime): the statement quantifies over every member.
+		warm := &coordinationExecutor{coordinatedWallet: wallet{publicKey: c22Key(c.Key), signingGroupOperators: c22View(view)}}
+		other := seed
+		other[0] ^= 0x5a
+		other[31] ^= 0xa5
+		var again chain.Address
+		if p, _ := vrep.Guard(func() { warm.getLeader(other); again = warm.getLeader(seed) }); p == nil && again != leader {
+			rp := c
+			rp.ViewA, rp.ViewB = view, view
+			r.ViolationMin("leader-history", len(view), fmt.Sprintf("key=%d hash=%d window=%d view=%s", c.Key, c.Hash, c.Window, view),
+				fmt.Sprintf("view %s: a fresh executor elects %s, an executor that ran an earlier election elects %s", view, leader, again), rp)
+		}
 		return leader
 	}
 	// leaderCheck compares the leader elected through viewB with the one elected
